@@ -451,8 +451,8 @@ type pureGen struct {
 	count        int
 }
 
-// startPurity builds the catalogue, takes the values of a fresh process, probes the aborting calls, logs the requests,
-// and starts TLC (disciplines, histories) in the background.
+// startPurity builds the catalogue, takes the values of a fresh process, logs the requests, and starts TLC
+// (disciplines, histories) in the background. No aborted call is made before finish.
 func startPurity(c *vlib.Ctx, k *checker) *purity {
 	p := &purity{c: c, k: k, afterAbort: map[[2]int]int{}, byThreads: map[int]int{}, failures: map[string][]*pureFailure{}}
 	p.ops = pureCatalogue(c, k)
@@ -484,7 +484,6 @@ func startPurity(c *vlib.Ctx, k *checker) *purity {
 			c.Violation(o.kind+"/variants-disagree", fmt.Sprintf("%s: two functions the protocol defines as equal return different values", o.name), map[string]any{"type": "PureHistory", "entry": o.name})
 		}
 	}
-	p.probe()
 	var cat []map[string]any
 	for _, o := range p.ops {
 		cat = append(cat, map[string]any{"name": o.name, "uses": o.uses, "abort": o.abort, "nested": o.nested})
@@ -804,6 +803,8 @@ func (p *purity) finish() {
 			nE++
 		}
 	}
+	// the first aborted calls of this process are made here, after the other parts of the check have run
+	p.probe()
 	t0 := time.Now()
 	var tlcWall time.Duration
 	replayAll := func(set [][]int) {
@@ -884,6 +885,8 @@ func (p *purity) finish() {
 		pay["reproduced_of_3"], pay["concurrent"], pay["mismatches_in_this_run"] = rep, f.concurrent, p.nFailures
 		c.Violation("history/"+kind, fmt.Sprintf("%s is not a function of its argument: it %s", name, what), pay)
 	}
+
+	p.scrub() // the parts that follow (judge) hash again
 
 	// ---- vacuity guards
 	sites := map[string]int{}
